@@ -22,6 +22,9 @@ def run_one(pid: str, tier: str, seed: int) -> int:
     try:
         P = Program()
         ctx = Ctx(pid, tier, seed, P)
+        if P.erased_records or P.value_classes:
+            # normalisations applied to the parsed program before any rule ran (sa/records.py)
+            ctx.extra["record_normalisation"] = {"namedtuples_erased_to_tuples": P.erased_records, "immutable_value_classes": P.value_classes}
         mod.run(ctx)
         rc = finish(ctx, getattr(mod, "LEVEL_TEXT", ""))
         if rc == 0 and tier == "thorough" and hasattr(mod, "thorough"):
